@@ -41,6 +41,9 @@ type Reader struct {
 	// (tcp.stall) - only generated on plain carriers.
 	StallAtUS int `json:"stall_at_us,omitempty"`
 	StallUS   int `json:"stall_us,omitempty"`
+	// Skip: bit m set = the reader does not set up media m (a reader that wants the audio only);
+	// never all medias.
+	Skip int `json:"skip,omitempty"`
 }
 
 // Scenario is one C01 run.
@@ -220,6 +223,13 @@ func gen(seed uint64, tier string) Scenario {
 			}
 		}
 	}
+	// a reader that sets up only part of the medias, next to one that sets up all (hash-derived)
+	if x := core.HS(seed, "c01.partial", "", 0); x%100 < 15 && len(sc.Formats) >= 2 && len(sc.Readers) >= 2 {
+		i := int((x >> 8) % uint64(len(sc.Readers)))
+		if sc.Readers[i].Transport != "mcast" {
+			sc.Readers[i].Skip = 1 << ((x >> 16) % uint64(len(sc.Formats)))
+		}
+	}
 	// holds between any two statements of pkg/conn's read / write functions (no lock is held there):
 	// a response and a frame written by two goroutines must each reach the connection in one piece
 	// (hash-derived so that no other choice moves)
@@ -392,7 +402,7 @@ func run(t *testing.T, sc Scenario) *core.Result {
 	var summary map[string]any
 	res := sys.Run(t, opts, func(w *sys.World) {
 		w.ProbeInit("queue_full_reported", "reader_paused", "reader_left_early", "seq_wrapped", "udp_reader", "publisher_source",
-			"secure", "tunnel_http", "tunnel_ws", "late_join", "stall_applied", "back_channel_in_stream", "lossless_udp_format_received", "multicast_reader", "multicast_packets_delivered", "packets_delivered", "srtp_wrap_between_setup_and_play_waived", "reader_timed_out", "reader_api_error_publisher_gone")
+			"secure", "tunnel_http", "tunnel_ws", "late_join", "stall_applied", "back_channel_in_stream", "lossless_udp_format_received", "partial_setup", "multicast_reader", "multicast_packets_delivered", "packets_delivered", "srtp_wrap_between_setup_and_play_waived", "reader_timed_out", "reader_api_error_publisher_gone")
 		srvNode := w.Net.Node("srv", "10.0.0.1")
 		h := sys.NewHandler(w)
 		srv := &gortsplib.Server{
@@ -670,9 +680,22 @@ func run(t *testing.T, sc Scenario) *core.Result {
 				}
 				rs.desc = d
 				rs.setupCallG = w.Log.NextG()
-				if err := c.SetupAll(d.BaseURL, d.Medias); err != nil {
-					fail("SetupAll", err)
-					return
+				if spec.Skip == 0 {
+					if err := c.SetupAll(d.BaseURL, d.Medias); err != nil {
+						fail("SetupAll", err)
+						return
+					}
+				} else {
+					w.Probe("partial_setup")
+					for k, m := range d.Medias {
+						if spec.Skip&(1<<k) != 0 {
+							continue
+						}
+						if _, err := c.Setup(d.BaseURL, m, 0, 0); err != nil {
+							fail("Setup", err)
+							return
+						}
+					}
 				}
 				c.OnPacketRTPAny(func(m *description.Media, f format.Format, pkt *rtp.Packet) {
 					g := w.Log.NextG()
@@ -852,8 +875,15 @@ func onPacket(w *sys.World, sc *Scenario, rs *readerState, written map[fkey][]*w
 	}
 	// SSRC announced in the SETUP response (single-format medias only)
 	var announced *uint32
-	if mi < len(rs.ssrcs) {
-		announced = rs.ssrcs[mi]
+	// (rs.ssrcs is in SETUP order: with medias left out, media mi was the j-th one set up)
+	j := mi
+	for m := 0; m < mi; m++ {
+		if rs.spec.Skip&(1<<m) != 0 {
+			j--
+		}
+	}
+	if j >= 0 && j < len(rs.ssrcs) {
+		announced = rs.ssrcs[j]
 	}
 	rs.mu.Unlock()
 	// (whatever the number of formats of the media: an SSRC that is announced must be the one carried)
@@ -881,6 +911,16 @@ func head(b []byte, n int) []byte {
 func checkReader(w *sys.World, sc *Scenario, h *sys.Handler, rs *readerState, written, fwd map[fkey][]*wpkt, writerQueueFull bool) {
 	if rs.client == nil || rs.apiErr != "" {
 		return
+	}
+	if rs.spec.Skip != 0 {
+		// what was written to a media the reader did not set up is not owed to it
+		f2 := map[fkey][]*wpkt{}
+		for k, v := range fwd {
+			if rs.spec.Skip&(1<<k.media) == 0 {
+				f2[k] = v
+			}
+		}
+		fwd = f2
 	}
 	if rs.diedG != 0 {
 		if !isTimeout(rs.diedErr) && sc.Source != "publisher" {
